@@ -461,6 +461,6 @@ func c12Scenarios(tier string) []*Scenario {
 
 func init() {
 	register(&PropDef{ID: "C12", Level: "model_checking",
-		Rule: "registry histories over <= 4 reverse tunnels with keys from {nil, a, a, b}: open, close from the handler side, from the serving side (context cancel, Stop) and by carrier failure, interleaved with routed unary RPCs (AsChannel / KeyAsChannel), Ready / WaitForReady / AllReverseTunnels queries from other threads; every lock, atomic and channel operation of the registry code (handler.go, tunnelChannel.close) is a scheduling point; all schedules with <= 1 (quick) / 2 (thorough) deviations; oracle: at every check point with no open/close in progress the three views equal the model set, an RPC is only served by an open tunnel with the right key and succeeds when the key's set is stable and non-empty, n consecutive RPCs over a stable set of n tunnels use each once, WaitForReady returns iff the set is non-empty, one open then one close callback per tunnel, nothing left behind",
+		Rule:      "registry histories over <= 4 reverse tunnels with keys from {nil, a, a, b}: open, close from the handler side, from the serving side (context cancel, Stop) and by carrier failure, interleaved with routed unary RPCs (AsChannel / KeyAsChannel), Ready / WaitForReady / AllReverseTunnels queries from other threads; every lock, atomic and channel operation of the registry code (handler.go, tunnelChannel.close) is a scheduling point; all schedules with <= 1 (quick) / 2 (thorough) deviations; oracle: at every check point with no open/close in progress the three views equal the model set, an RPC is only served by an open tunnel with the right key and succeeds when the key's set is stable and non-empty, n consecutive RPCs over a stable set of n tunnels use each once, WaitForReady returns iff the set is non-empty, one open then one close callback per tunnel, nothing left behind",
 		Scenarios: c12Scenarios})
 }
